@@ -15,6 +15,7 @@
   observed on the epoch tracker itself (`ep*` ops, see `Spec.C17.EpochOK`).
 -/
 import Influx.Model.StoreDelProto
+import Influx.Model.Epoch
 import Influx.Spec.C16
 
 namespace Influx.Spec.C17
@@ -52,8 +53,9 @@ def Abs.delete (a : Abs) (lo hi : Int) (pred : Option Pred) : Abs :=
     identifies the series) with their points -/
 inductive Ans where
   | ok
-  | points (l : List (Bytes × List (Int × Int)))     -- series key ↦ points in returned order
-  | keys (l : List Bytes)                             -- series keys / measurement names
+  | points (l : List ((Bytes × Tags) × List (Int × Int)))   -- series ↦ points in returned order
+  | ids (l : List (Bytes × Tags))                            -- series listed
+  | keys (l : List Bytes)                                    -- measurement names
   | other (s : String)
 deriving Repr
 
@@ -68,8 +70,7 @@ inductive Verd where
   | ok | pointsWrong | listingWrong | noAnswer
 deriving Repr, DecidableEq
 
-/-- series key as the read / ls ops print it (`models.MakeKey`; only used to match answers) -/
-def keyOf (e : Entry) : Bytes := Influx.Model.DelPred.makeKey e.name e.tags
+def keyOf (e : Entry) : Bytes × Tags := (e.name, e.tags)
 
 def judgeObs (a : Abs) (op : Op) (ans : Ans) : Verd :=
   match op, ans with
@@ -82,7 +83,7 @@ def judgeObs (a : Abs) (op : Op) (ans : Ans) : Verd :=
        live.all (fun e => l.any fun x => x.1 = keyOf e) &&
        l.length = live.length
     then .ok else .pointsWrong
-  | .ls sh, .keys l =>
+  | .ls sh, .ids l =>
     let live := (a.filter fun e => e.shard = sh ∧ !e.pts.isEmpty).map keyOf
     if l.all live.contains && live.all l.contains && l.length = live.length then .ok else .listingWrong
   | .mn .nil_ none, .keys l =>
@@ -91,18 +92,73 @@ def judgeObs (a : Abs) (op : Op) (ans : Ans) : Verd :=
   | .read _, _ | .ls _, _ | .mn .nil_ none, _ => .noAnswer
   | _, _ => .ok
 
-def judgeCase : Abs → List (Op × Ans) → List Verd
+/-- `n` = number of shards opened (reads of other shards are refused) -/
+def judgeCase (n : Nat) : Abs → List (Op × Ans) → List Verd
   | _, [] => []
   | a, (op, ans) :: rest =>
     match op, ans with
-    | .write sh name tags pts, .ok => judgeCase (a.write sh name tags pts) rest
-    | .del lo hi pred _, .ok => judgeCase (a.delete lo hi pred) rest
+    | .write sh name tags pts, .ok => judgeCase n (a.write sh name tags pts) rest
+    | .del lo hi pred _, .ok => judgeCase n (a.delete lo hi pred) rest
     -- a delete that is not acknowledged leaves the content unspecified: it must not happen
-    | .del .., _ => Verd.noAnswer :: judgeCase a rest
-    | _, _ => judgeObs a op ans :: judgeCase a rest
+    | .del .., _ => Verd.noAnswer :: judgeCase n a rest
+    | .read sh, .other s =>
+      (if (sh < 1 ∨ n < sh) ∧ s = "bad-op" then Verd.ok else .noAnswer) :: judgeCase n a rest
+    | .ls sh, .other s =>
+      (if (sh < 1 ∨ n < sh) ∧ s = "bad-op" then Verd.ok else .noAnswer) :: judgeCase n a rest
+    | _, _ => judgeObs a op ans :: judgeCase n a rest
 
-/-- **The statement on one case** (clauses 1 and 2). -/
+/-- **The statement on one case** (clauses 1 and 2); the case starts with `open n`. -/
 def holdsOn (obs : List (Op × Ans)) : Bool :=
-  (judgeCase [] obs).all (· = .ok)
+  match obs with
+  | (.open_ n, .ok) :: rest => (judgeCase n [] rest).all (· = .ok)
+  | _ => (judgeCase 0 [] obs).all (· = .ok)
+
+/-! ### clause 3 (non-blocking writes), from the history of the epoch ops alone -/
+
+section Epoch
+open Influx.Model.Epoch (EOp EAns)
+
+
+/-- history: writes in flight and deletes running, each with the position at which it entered -/
+structure EHist where
+  pos : Nat := 0
+  writes : List (Int × Nat) := []
+  deletes : List (Int × Nat × Int × Int) := []
+deriving Repr
+
+/-- "writes that do not conflict with a running delete are never blocked by it": a write waits for
+    exactly the running deletes whose time range contains one of its points; and a delete waits
+    for exactly the writes that entered before it and have not left. -/
+def judgeEpoch (h : EHist) (op : EOp) (ans : EAns) : EHist × Bool :=
+  match op, ans with
+  | .startWrite id times, .started _ wait =>
+    let conflicting := (h.deletes.filter fun d => times.any fun t => d.2.2.1 ≤ t ∧ t ≤ d.2.2.2).map (·.1)
+    ({ h with pos := h.pos + 1, writes := h.writes ++ [(id, h.pos)] },
+      wait.all conflicting.contains && conflicting.all wait.contains)
+  | .endWrite id, .ok => ({ h with writes := h.writes.filter (·.1 ≠ id) }, true)
+  | .waitDelete id lo hi, .installed _ p =>
+    ({ h with pos := h.pos + 1, deletes := h.deletes ++ [(id, h.pos, lo, hi)] }, p = h.writes.length)
+  | .pending id, .pending p =>
+    match h.deletes.find? (·.1 = id) with
+    | some d => (h, p = (h.writes.filter fun w => w.2 < d.2.1).length)
+    | none => (h, false)
+  | .done id, .ok => ({ h with deletes := h.deletes.filter (·.1 ≠ id) }, true)
+  -- ops on unknown / duplicate ids are refused
+  | .startWrite id _, .badOp => (h, h.writes.any (·.1 = id))
+  | .endWrite id, .badOp => (h, !h.writes.any (·.1 = id))
+  | .waitDelete id _ _, .badOp => (h, h.deletes.any (·.1 = id))
+  | .pending id, .badOp => (h, !h.deletes.any (·.1 = id))
+  | .done id, .badOp => (h, !h.deletes.any (·.1 = id))
+  | _, _ => (h, false)
+
+def judgeAll : EHist → List (EOp × EAns) → Bool
+  | _, [] => true
+  | h, (op, ans) :: rest => (judgeEpoch h op ans).2 && judgeAll (judgeEpoch h op ans).1 rest
+
+/-- the clause on one case -/
+def EpochOK (obs : List (EOp × EAns)) : Bool := judgeAll {} obs
+
+
+end Epoch
 
 end Influx.Spec.C17
